@@ -365,6 +365,62 @@ def mj_seats_spec(c, v):
     return None
 
 
+def star_ref(c):
+    """STAR as defined, independently (C12_star_seats / C12_star_single_exact): run-off members = the n + 1 highest score
+    sums, a tie at that cut drops the whole level group; support(x, y) = weight of the ballots that score x above y (an
+    unscored candidate counts with the configured unscored_value, or below every scored one); the contest = members that
+    some ballot separates from another member; answer = Schulze (number of beat-path wins over the supports) among the
+    contest, min(n, size of the contest) entries.  -> (contest, plain winners, tied level or None)"""
+    n = c['n']
+    sums = {}
+    for b, w in c['votes']:
+        for cc, s in b:
+            sums[cc] = sums.get(cc, 0) + q(s) * w
+    order = sorted(sums, key=lambda k: -sums[k])
+    if len(order) <= n + 1:
+        members = list(order)
+    else:
+        thr = sums[order[n]]
+        members = [cc for cc in order if sums[cc] > thr] if sums[order[n + 1]] == thr else order[:n + 1]
+    uv = -1 if c.get('unscored', 'none') == 'none' else int(c['unscored'])
+    sup = {(x, y): sum(w for bal, w in c['votes'] if dict(bal).get(x, uv) > dict(bal).get(y, uv)) for x in members for y in members if x != y}
+    if uv == -1:
+        seen = {(x, y) for x in members for y in members if x != y
+                and any(dict(bal).get(x, uv) > dict(bal).get(y, uv) for bal, w in c['votes'])}
+    else:
+        seen = {k for k, v in sup.items() if v > 0}
+    contest = [x for x in members if any((x, y) in seen or (y, x) in seen for y in members if y != x)]
+    p = {(x, y): (sup[x, y] if sup[x, y] > sup[y, x] else 0) for x in contest for y in contest if x != y}
+    for i in contest:
+        for j in contest:
+            if j != i:
+                for k in contest:
+                    if k != i and k != j:
+                        p[j, k] = max(p[j, k], min(p[j, i], p[i, k]))
+    wins = {x: sum(1 for y in contest if y != x and p[x, y] > p[y, x]) for x in contest}
+    ranked = sorted(contest, key=lambda x: -wins[x])
+    if len(ranked) <= n:
+        return contest, set(ranked), None
+    thr = wins[ranked[n - 1]]
+    if wins[ranked[n]] != thr:
+        return contest, set(ranked[:n]), None
+    return contest, {x for x in ranked if wins[x] > thr}, {x for x in ranked if wins[x] == thr}
+
+
+def star_seats_spec(c, v):
+    contest, plain, tied = star_ref(c)
+    n, res = c['n'], v[1]
+    got_plain = [r for r in res if not isinstance(r, list)]
+    got_ties = [set(r) for r in res if isinstance(r, list)]
+    if len(res) != min(n, len(contest)):
+        return ('STAR returns %d entries %s for %d seats; %d run-off members are separated by a ballot (%s): expected %d entries'
+                % (len(res), res, n, len(contest), sorted(contest), min(n, len(contest))))
+    if set(got_plain) != plain or len(set(got_plain)) != len(got_plain) or any(t != tied for t in got_ties) or (tied is None) != (not got_ties):
+        return ('STAR (%d seats) returns %s; Schulze over the run-off supports elects %s%s'
+                % (n, res, sorted(plain), '' if tied is None else ' and leaves %s level' % sorted(tied)))
+    return None
+
+
 def alloc_ref(votes, n, quota_name):
     """independent allocated-score count: per seat the highest weighted score sum wins and one quota of its
     strongest supporters (highest score for the winner first, proportional cut at the boundary) is spent.
@@ -530,6 +586,11 @@ def spec(c, io, mo):
             if want is not None and res != [want]:
                 c['_class'] = 'star'
                 return 'STAR returns %s, run-off of %d and %d is won by %d (%s:%s)' % (res, a, b2, want, pa, pb)
+    if u == 'star' and v[0] == 0:
+        bad = star_seats_spec(c, v)
+        if bad is not None:
+            c['_class'] = 'star-seats'
+            return bad
     if u in ('score', 'mj') and v[0] != 0 and v[1] not in (common.E['NIE'], common.E['VSE']):
         c['_class'] = 'trunc-empty' if trunc_empties(c) else ('mj-default-stats' if u == 'mj' and not c.get('plus') else u + '-crash')
         return '%s raises %s (trunc=%s min_count=%s unscored=%s)' % (u, c.get('_exc'), c['cfg']['trunc'], c['cfg']['min_count'], c['cfg']['unscored'])
@@ -774,6 +835,28 @@ def gen_mj_seats(rng, count):
         yield dict(unit='mj', votes=votes, n=rng.randint(1, mm), cfg=cfg, plus=rng.random() < 0.25)
 
 
+def gen_star_seats(rng, count):
+    """boundary stream for STAR with any number of seats: few grades and few ballots over 3..5 candidates (partial ballots
+    included), so that tied finalist cuts, finalists no ballot separates (the short class), level run-offs and
+    three- / four-member Schulze run-offs are all frequent"""
+    for _ in range(count):
+        m = rng.randint(3, 5)
+        g = rng.choice([1, 2, 2, 3, 5])
+        full = rng.random() < 0.5
+        rows = {}
+        for _ in range(rng.randint(1, 6)):
+            cs = list(range(1, m + 1)) if full else sorted(rng.sample(range(1, m + 1), rng.randint(1, m)))
+            b = tuple((cc, rng.randint(0, g)) for cc in cs)
+            rows[b] = rng.randint(1, 3)
+        votes = [[[list(x) for x in b], w] for b, w in rows.items()]
+        mm = len({cc for b, _ in votes for cc, _ in b})
+        c = dict(unit='star', votes=votes, n=rng.randint(1, max(1, mm - 1)),
+                 cfg=dict(fn='sum', unscored='none', min_count=0, trunc='0', bottom='0'))
+        if not full and rng.random() < 0.25:
+            c['unscored'] = '0'
+        yield c
+
+
 def corpus():
     import os, json, glob
     for p in sorted(glob.glob(os.path.join(common.VERIF, 'corpus', ID, '*.json'))):
@@ -786,6 +869,7 @@ def explore(ctx, widen=1):
     ctx.differential('random', gen(ctx.rng, ctx.n(3000, 40000) * widen), model_line, impl, **kw)
     ctx.differential('single-seat-level', gen_focus(ctx.rng, ctx.n(1500, 15000) * widen), model_line, impl, **kw)
     ctx.differential('mj-seats-level', gen_mj_seats(ctx.rng, ctx.n(3000, 30000) * widen), model_line, impl, **kw)
+    ctx.differential('star-seats', gen_star_seats(ctx.rng, ctx.n(2500, 25000) * widen), model_line, impl, **kw)
     ctx.differential('alloc-exact-quota', gen_alloc_exact(ctx.rng, ctx.n(3000, 20000) * widen), model_line, impl, **kw)
     ctx.differential('alloc-model', gen_alloc_model(ctx.rng, ctx.n(4000, 40000) * widen), model_line, impl, **kw)
 
